@@ -1,6 +1,9 @@
 use std::cell::Cell;
 use std::ptr;
+#[cfg(not(feature = "multiqueue2_verif"))]
 use std::sync::atomic::{fence, AtomicPtr, AtomicUsize, Ordering};
+#[cfg(feature = "multiqueue2_verif")]
+use crate::verif_hooks::{fence, AtomicPtr, AtomicUsize, Ordering};
 
 use crate::alloc;
 use crate::consume::CONSUME;
@@ -318,4 +321,11 @@ impl ReadCursor {
             current_group.readers.is_empty()
         }
     }
+}
+
+// Verification hook (off by default): contracts and proof harnesses kept outside the repository.
+#[cfg(feature = "multiqueue2_verif")]
+#[allow(dead_code, unused_imports, unused_variables, unused_mut)]
+mod verif_contracts {
+    include!(concat!(env!("MULTIQUEUE2_VERIF_DIR"), "/read_cursor.rs"));
 }
